@@ -56,6 +56,15 @@ bool Executor::native(State &s, CallBase *cb, Function *f, std::vector<Val> &a, 
         case Intrinsic::memset: if (!memSet(s, a[0], a[1], a[2], cb)) { ended = true; return false; } return true;
         case Intrinsic::trap: fail(s, "ub", "llvm.trap executed (abort/__builtin_trap)", cb, nullptr); ended = true; return false;
         case Intrinsic::eh_typeid_for: ret = mkInt(32, typeIdFor(a[0].lo)); return true;
+        case Intrinsic::load_relative: {
+            // ptr + sext(*(i32*)(ptr + offset))
+            Val p = a[0], off = a[1];
+            if (p.k != Val::INT || off.k != Val::INT) throw EngineError("llvm.load.relative with symbolic operands");
+            Val w;
+            if (!loadVal(s, mkPtr(p.lo + off.lo), Type::getInt32Ty(M->getContext()), cb, w)) { ended = true; return false; }
+            if (w.k != Val::INT) throw EngineError("llvm.load.relative: symbolic table entry");
+            ret = mkPtr(p.lo + (uint64_t)(int64_t)(int32_t)(uint32_t)w.lo); return true;
+        }
         case Intrinsic::stacksave: ret = mkPtr(0); return true;
         case Intrinsic::stackrestore: return true;
         case Intrinsic::fabs: ret = fpUnary("fabs", a[0]); return true;
